@@ -18,6 +18,9 @@ mod encoder;
 mod prefix_int;
 mod prefix_string;
 
+#[cfg(h3_verif)]
+pub mod verif;
+
 #[cfg(test)]
 mod tests;
 
